@@ -68,5 +68,36 @@ func buildPipeline(g *scheduler.ExecutionGraph, stages []*stageDefinition, cfg *
 		}
 	}
 
+	// every dependency must name a stage of this pipeline; the scheduler
+	// aborts the whole process when it meets an unknown one at run time
+	for _, stage := range g.Nodes() {
+		for _, dep := range stage.DependsOn {
+			if _, err := g.Node(dep); err != nil {
+				return nil, fmt.Errorf("stage %s depends on unknown stage %s", stage.Name, dep)
+			}
+		}
+	}
+
 	return g, nil
+}
+
+// checkPipelineInclusion reports an error when the pipeline includes itself,
+// directly or through other pipelines. Such a pipeline can never finish
+func checkPipelineInclusion(name string, g *scheduler.ExecutionGraph, path map[*scheduler.ExecutionGraph]bool) error {
+	if path[g] {
+		return fmt.Errorf("pipeline %s includes itself", name)
+	}
+	path[g] = true
+	defer delete(path, g)
+
+	for _, stage := range g.Nodes() {
+		if stage.Pipeline == nil {
+			continue
+		}
+		if err := checkPipelineInclusion(name, stage.Pipeline, path); err != nil {
+			return err
+		}
+	}
+
+	return nil
 }
